@@ -196,6 +196,46 @@ def r03_1(ctx, rr):
     rr.check(len(news) == 1, "From<A>:builder", "From<A> must create exactly one EliasFanoBuilder::new(len, max)", b.span)
 
 
+@rule("R03.10", props=["C03", "C04", "C12"], floor=1, title="From<slice> for EliasFano: the upper bound given to the builder covers every value (maximum over all the elements, or the last one)")
+def r03_10(ctx, rr):
+    F = ctx.F()
+    b = F.one(r"^<dict::elias_fano::EliasFano as std::convert::From<A>>::from$")
+    news = [n for n in walk(b.body) if callee_is(F, n, "EliasFanoBuilder::new")]
+    if len(news) != 1:
+        raise AnchorMissing("From<A> for EliasFano: expected one EliasFanoBuilder::new")
+    # the bound handed to the builder covers *every* value (push_unchecked does not test it): a maximum accumulated over
+    # a loop on all the elements themselves, or the last element / the maximum of the slice
+    if len(news) == 1 and len(call_args(news[0])) >= 2:
+        ub = call_args(news[0])[-1]
+        rr.instances += 1
+        PLAIN = ("iter", "copied", "cloned", "as_ref", "into_iter", "enumerate", "by_ref")
+        ok_bound = False
+        why = "its value could not be traced to all the elements"
+
+        def whole_slice_max(e):
+            names = [x["name"] for x in walk(e) if x.get("k") == "MethodCall"]
+            return "last" in names or ("max" in names and "iter" in names and not any(m in names for m in ("windows", "chunks", "skip", "take", "step_by", "rev")))
+        if whole_slice_max(ub):
+            ok_bound = True
+        elif ub.get("k") == "Path" and ub.get("res") == "local":
+            mid = ub["id"]
+            inits = [l for l in walk(b.body) if l.get("k") == "LetStmt" and l["pat"].get("k") == "PBind" and l["pat"]["id"] == mid and "init" in l]
+            if inits and whole_slice_max(inits[0]["init"]):
+                ok_bound = True
+            for pat, it, body in for_loops(b.body):
+                chain = [c[0] for c in method_chain(F, it)]
+                plain = all(c in PLAIN for c in chain)
+                lvars = set(pid for _nm, pid in pat_bindings(pat))
+                for a in walk(body):
+                    if a.get("k") in ("Assign", "AssignOp") and a["l"].get("k") == "Path" and a["l"].get("id") == mid:
+                        uses = set(x.get("id") for x in walk(a["r"]) if x.get("k") == "Path" and x.get("res") == "local")
+                        if plain and (uses & lvars):
+                            ok_bound = True
+                        elif not plain:
+                            why = "it is accumulated over `%s`, which does not visit every element as the accumulated value (the last element of a windows(2) scan is never the first of a pair; a singleton has no pair)" % show(F, it)[:50]
+        rr.check(ok_bound, "From<A>:bound-covers-every-value", "From<A> for EliasFano creates the builder with the upper bound `%s`, but %s: values above the bound are stored by push_unchecked without a test and become invisible to (or corrupt) the queries" % (show(F, ub)[:40], why), F.loc(news[0]))
+
+
 def strict_arg(n):
     ga = [g for g in (n.get("ga") or []) if g in ("true", "false")]
     return ga[0] if len(ga) == 1 else None
@@ -779,18 +819,25 @@ def r12_4(ctx, rr):
     fs = F.one(r"^bits::bit_field_vec::BitFieldVec::<W>::from_slice$")
     errs = []
 
+    widths = []
+
     def on_fs(W, n, K):
         if n.get("k") == "Ret" and "e" in n and W.debug_depth == 0 and show(F, n["e"]).startswith("v1::Err("):
-            errs.append((n, K.copy()))
+            errs.append((n, K.copy(), [(a, W.expand(a[2])) for a in K.atoms if a[0] == "le"]))
+        # the width the result is created with
+        if n.get("k") == "Call" and (F.callee(n) or "").startswith("bits::bit_field_vec::BitFieldVec") and strip_generics(F.callee(n)).split("::")[-1] in ("new", "new_unaligned", "with_capacity") and n.get("args"):
+            widths.append(W.expand(W.T.term(n["args"][0])))
     Walker(F, fs, on_node=on_fs).run()
     if not errs:
         raise AnchorMissing("from_slice: no `return Err(..)`")
-    for n, K in errs:
+    for n, K, les in errs:
         rr.instances += 1
-        ok = any(a[0] == "le" and a[3] <= -1 and a[1][0] == "def" and a[1][1].endswith("BITS") and a[2][0] not in ("int", "def") for a in K.atoms)
+        # `W::BITS < w` with w the width the values need -- the very quantity the result vector is then created with
+        # (the declared width of the source may be larger than what its values need)
+        ok = any(a[3] <= -1 and a[1][0] == "def" and a[1][1].endswith("BITS") and a[2][0] not in ("int", "def") and (not widths or rhs in widths) for a, rhs in les)
         rr.ob(ok, key="BitFieldVec::from_slice:rejects-only-too-wide", sample={"established": K.show()[:4]})
         if not ok:
-            rr.violate("BitFieldVec::from_slice:rejects-only-too-wide", "from_slice refuses its input at `%s` although `W::BITS < needed width` is not established (established: %s): a source whose largest value needs exactly W::BITS bits fits a full-width vector and must be accepted" % (show(F, n)[:60], "; ".join(K.show()[:4])), F.loc(n))
+            rr.violate("BitFieldVec::from_slice:rejects-only-too-wide", "from_slice refuses its input at `%s` although `W::BITS < needed width` is not established for the width the result is created with (established: %s): a source whose values fit -- the largest needing up to exactly W::BITS bits, whatever the declared width of the source -- must be accepted" % (show(F, n)[:60], "; ".join(K.show()[:4])), F.loc(n))
 
     def index_of_reasons(P):
         val = None
